@@ -153,6 +153,17 @@ func readSweep(j job) (r result) {
 				}
 			}
 		}
+	case "quads": // every string of length 4 over the core syntax bytes
+		core := []byte("()'\"#\\|;,@`.012arxb*:-+ ")
+		for _, a := range core {
+			for _, b := range core {
+				for _, c := range core {
+					for _, d := range core {
+						try([]byte{a, b, c, d})
+					}
+				}
+			}
+		}
 	default: // random strings, syntax bytes over-represented
 		for i := 0; i < j.Count; i++ {
 			n := 1 + rng.Intn(24)
